@@ -184,7 +184,13 @@ Value& MemberINSERTExpression::value(Context& ctx) const
     if (p < 0 || size_t(p) > rv->size())
       throw RuntimeError(EXC_RT_INDEX_RANGE_S, a0.toString().c_str());
     if (a1.isNull())
+    {
+      /* a constant of the program is not handed out: the result could be the
+       * receiver of a further in-place method */
+      if (_exp->isConst() && val.lvalue())
+        return ctx.allocate(val.clone());
       return val;
+    }
     switch (a1.type().major())
     {
     case Type::LITERAL:
